@@ -10,7 +10,8 @@ import gen_ledger
 from vlib import *
 
 ALL_EDITS = ('{"forge_sig", "no_sig", "tamper_output", "type_fee", "type_atr", "type_issuance", "type_spv", '
-             '"dup_input", "inflate_input", "phantom_input", "overspend", "wrap_outputs", "foreign_input", "spent_input"}')
+             '"dup_input", "inflate_input", "phantom_input", "overspend", "wrap_outputs", "foreign_input", "spent_input", '
+             '"zero_lead_foreign"}')
 FEW_EDITS = '{"forge_sig", "foreign_input", "spent_input"}'
 MC = {
     "quick": [dict(Keys='{"k1", "k2"}', G=2, MaxH=3, MaxBad=1, Edits=ALL_EDITS, PoolOps="FALSE",
@@ -57,8 +58,8 @@ def mc(wd, t):
         gen_n += g
         for k, v in action_coverage(out).items():
             cov[k] = cov.get(k, 0) + v
-    for a in ("GoodBlock", "ChainedBlock", "BadBlock", "DoubleSpendBlock", "SubmitGood", "SubmitConflict",
-              "SubmitBad", "ConfirmPooled"):
+    for a in ("GoodBlock", "BadBlock", "DoubleSpendBlock", "SubmitGood", "SubmitConflict",
+              "SubmitBad", "ConfirmPooled", "SubmitPartialConflict", "ForkBlocks"):
         if cov.get(a, 0) == 0:
             raise ToolError("MC_Ledger: action %s never taken" % a)
     return dist, gen_n, cov
